@@ -19,7 +19,7 @@ HARNESSES = [
      "quick_cases": ["first:d1", "second:d1", "first:d10", "junkfirst:d4"], "timeout": {"quick": 150, "thorough": 400},
      "per_path_timeout": 120},     # (z3 needs up to ~30 s for one 10-digit decimal query; the default per-query limit is 15 s)
     {"fn": "h_id", "cases": ["", "0x"], "timeout": {"quick": 90, "thorough": 300}},
-    {"fn": "h_src", "cases": ["q2", "q3", "q0:long"], "quick_cases": ["q2"], "timeout": {"quick": 90, "thorough": 300}},
+    {"fn": "h_src", "cases": ["q2", "q3", "q0:long", "q0:full32"], "quick_cases": ["q2", "q0:full32"], "timeout": {"quick": 90, "thorough": 300}},
     {"fn": "h_src_exclude", "cases": ["c10"], "timeout": {"quick": 90, "thorough": 300}},
     {"fn": "h_src_exclude_lines", "cases": ["fwd", "rev"], "timeout": {"quick": 90, "thorough": 300}},
 ]
@@ -165,15 +165,23 @@ def h_src() -> bool:
     post: _
     """
     nq = int(CASE[1])
-    c = sym_str("c", 2, ALPH[:6])                      # two characters of the reference code
-    code = [ord(x) for x in "BD8D"] + [ord(c[0]), ord(c[1])] + [ord(x) for x in "34"]
-    A = pb.PEL(pb.SRC(ascii=mkbytes(b"BD8D", [ord(c[0]), ord(c[1])], b"34" + b" " * 24)), ph=dict(eid=0x50000001),
-               uh=dict(flags=flagsA()))
+    full32 = CASE.endswith("full32")
     B = pb.PEL(pb.SRC(ascii=b"11002030"), ph=dict(eid=0x50000002))
-    if CASE.endswith("long"):
-        query = "B" * 33
+    if full32:
+        # the longest legal query: a complete 32-character reference code field (its last character symbolic)
+        code = [ord(x) for x in "BD8DD134 extra text to col 32 !!"]
+        A = pb.PEL(pb.SRC(ascii=b"BD8DD134 extra text to col 32 !!"), ph=dict(eid=0x50000001), uh=dict(flags=flagsA()))
+        query = "BD8DD134 extra text to col 32 !" + sym_str("q", 1, "!?")
+        nq = 32
     else:
-        query = sym_str("q", nq, ALPH[:6])
+        c = sym_str("c", 2, ALPH[:6])                      # two characters of the reference code
+        code = [ord(x) for x in "BD8D"] + [ord(c[0]), ord(c[1])] + [ord(x) for x in "34"]
+        A = pb.PEL(pb.SRC(ascii=mkbytes(b"BD8D", [ord(c[0]), ord(c[1])], b"34" + b" " * 24)), ph=dict(eid=0x50000001),
+                   uh=dict(flags=flagsA()))
+        if CASE.endswith("long"):
+            query = "B" * 33
+        else:
+            query = sym_str("q", nq, ALPH[:6])
     w = World(files=[("a_50000001", A), ("b_50000002", B)])
     ns = Namespace(**dict(ARG_DEFAULTS, path="/pels", skip_plugins=True, src=query))
     try:
